@@ -376,6 +376,9 @@ def weave_fn(sf, it, spec, log, where, canary=False):
             ed.add(toks[bi].start, toks[bi].start, txt)
             if ls.get('head_proof'):
                 ed.add(toks[bi].end, toks[bi].end, '\n proof { ' + ls['head_proof'] + ' }\n')
+            if ls.get('after_proof'):
+                be = toks[match_close(toks, bi)]
+                ed.add(be.end, be.end, '\n proof { ' + ls['after_proof'] + ' }\n')
             if ls.get('iter_name'):
                 # `for x in e` -> `for x in NAME: e`
                 k = kwi + 1
